@@ -294,7 +294,8 @@ def handleEvaluate (j : Json) : Except String Json := do
       | none => some ""
     envVar := fun k => env.lookup k
     parent := fun x => Generated.constantTable.lookup x
-    ownFirst := ownFirst }
+    ownFirst := ownFirst
+    dryRun := (j.getObjValAs? Bool "dryRun").toOption.getD false }
   let (st, r) := Eval.evaluateAssignments ctx assigns overrides 100000
   let values := assigns.map (fun (n, _) => (n, st.scope.lookup n))
   let bts := st.log.filterMap (fun e => match e with | .bt c => some c | _ => none)
